@@ -39,7 +39,8 @@ def opNames : List (String × Op) :=
    ("gibbsSweep", .gibbsSweep), ("gibbsSweepNoRng", .gibbsSweepNoRng), ("sampleMCMC", .sampleMCMC),
    ("sampleVI", .sampleVI), ("cliPrepareRetrospective", .cliPrepareRetrospective),
    ("cliCalculateScores", .cliCalculateScores), ("cliSelectNextPlate", .cliSelectNextPlate),
-   ("cliTrainModel", .cliTrainModel), ("cliTrainModelVI", .cliTrainModelVI)]
+   ("cliTrainModel", .cliTrainModel), ("cliTrainModelVI", .cliTrainModelVI),
+   ("cliEvaluateModel", .cliEvaluateModel)]
 
 def parseBits? (s : String) : Option (List Bool) :=
   if s == "-" then some [] else s.toList.mapM (fun c => if c == '1' then some true else if c == '0' then some false else none)
